@@ -1,5 +1,6 @@
 import BfeVerif.C25.Model
 import BfeVerif.C26.Model
+import BfeVerif.Generated.C29
 /-
   C29 — model of the client-address resolution:
     mod_trust_clientip.acceptHandler   trusted := trustTable.Search(peer IP)         (SPEC of the table:
@@ -113,7 +114,7 @@ def resolve (i : In) : Option (Bytes × Int) × Hdr :=
 /-- what is sent upstream: `ReverseProxy.ServeHTTP` copies the request and runs `hopByHopHeaderRemove`
     (model of C26, incl. the names a Connection token cannot remove) AFTER mod_header set its headers -/
 def upstream (i : In) : Hdr :=
-  BfeVerif.C26.hopRemove BfeVerif.Generated.C26.hopHeaders (resolve i).2
+  BfeVerif.C26.hopRemoveP BfeVerif.Generated.C29.hopHeaders BfeVerif.Generated.C29.hopProtected (resolve i).2
 
 /-! ## trust-table reload histories: the table in force is the one most recently loaded SUCCESSFULLY -/
 structure Load where
